@@ -135,6 +135,8 @@ type opData struct {
 	by     int
 	to     int // recipient actor; -1 = recipient field left empty (defaults to the sender)
 	amt    uint64
+	// pad: the token id of the message is the real id with a trailing blank (names no token)
+	pad bool
 }
 
 // Driver implements mc.Driver.
@@ -310,6 +312,7 @@ func (d *Driver) Enabled(e *mc.Env, s *mc.State) []mc.Op {
 					for _, a := range self {
 						add(opData{kind: "transfer", ci: ci, ti: ti, by: h, to: h, amt: a.v}, fmt.Sprintf("transfer(%s,%s>%s,%s)", tn, actors[h], actors[h], a.label))
 					}
+					add(opData{kind: "transfer", ci: ci, ti: ti, by: h, to: next(h), amt: 1, pad: true}, fmt.Sprintf("transfer(%s+blank,%s>%s,1)", tn, actors[h], actors[next(h)]))
 					for _, a := range as {
 						add(opData{kind: "burn", ci: ci, ti: ti, by: h, amt: a.v}, fmt.Sprintf("burn(%s,%s,%s)", tn, actors[h], a.label))
 					}
@@ -418,8 +421,14 @@ func (d *Driver) Apply(e *mc.Env, s *mc.State, op mc.Op) []mc.Finding {
 			mustReject = "not-owner"
 		}
 	case "transfer":
-		msg = &mttypes.MsgTransferMT{Id: tk.id, DenomId: cl.id, Amount: od.amt, Sender: sender, Recipient: rcpt}
+		tid := tk.id
+		if od.pad {
+			tid += " "
+		}
+		msg = &mttypes.MsgTransferMT{Id: tid, DenomId: cl.id, Amount: od.amt, Sender: sender, Recipient: rcpt}
 		switch {
+		case od.pad:
+			mustReject = "no-token-with-this-id"
 		case tk.bal[od.by].Cmp(A) < 0:
 			mustReject = "exceeds-balance"
 		case to != od.by && !inRange(new(big.Int).Add(tk.bal[to], A)):
